@@ -112,6 +112,9 @@ func (uaq *UnAckQueue) Push(s Queueable) error {
 	if len(uaq.Uslice) != 0 {
 		pushIdx = uaq.Uslice[len(uaq.Uslice)-1].Id + 1
 	}
+	if verifEnabled {
+		vpoint("push.idread", "id", pushIdx)
+	}
 
 	sStz, ok := s.(*UnAckedStz)
 	if !ok {
